@@ -35,7 +35,7 @@ Definition input := (list op * nat)%type.
 (* the property, on the implementation's own log, from the input alone *)
 Definition C13_ok (i : input) (o : res obs) : bool :=
   let (h, k) := i in
-  if negb (wf_hist h) then true          (* outside the quantifier; the generator produces none *)
+  if negb (wf_hist h && shared_domain h) then true          (* outside the quantifier; the generator produces none *)
   else
     match o with
     | Ok ob =>
@@ -59,7 +59,7 @@ Definition C13_ok (i : input) (o : res obs) : bool :=
 
 Definition C13_corr (i : input) (o : res obs) : bool :=
   let (h, k) := i in
-  if negb (wf_hist h) then true
+  if negb (wf_hist h && shared_domain h) then true
   else
     match run h k, o with
     | Ok m, Ok ob =>
@@ -76,7 +76,12 @@ Definition C13_case1 := (input * res obs)%type.
 
 (* a case is a table and, when callbacks of that table render other tables from
    inside a pass (a table in a cell), those tables too: every one of them is
-   judged against its own history *)
+   judged against its own history.  The same form carries two tables that
+   share rows: each table's history names the other table's AddRow of a shared
+   row as [OOtherAddRow] (no event of this table: c13_other_table), a
+   registration made upon a shared row through the other table as the
+   registration it is, and a row built on behalf of the other table as the
+   detached row with its cells that it is for this one. *)
 Definition C13_case (c : C13_case1 * list C13_case1) : N :=
   let (m, subs) := c in
   code (forallb (fun c : C13_case1 => C13_corr (fst c) (snd c)) (m :: subs))
